@@ -491,10 +491,10 @@ impl Scenario for IoFaults {
         let (fmt, elts) = FMTS[(idx % FMTS.len() as u64) as usize];
         let elt = *g.pick(elts);
         let tensor = fmt.ends_with("tensor");
-        // shapes 0..6 x 0..40 x 0..8 incl. empty axes; tensors need non-empty axes (burn cannot hold empty tensors)
-        let lo = if tensor { 1 } else { 0 };
-        let mut s = [g.usize(lo, 6), g.usize(lo, 40), g.usize(lo, 8)];
-        if g.bool(1, 6) && !tensor {
+        // shapes 0..6 x 0..40 x 0..8 incl. empty axes (array and tensor entry points alike)
+        let _ = tensor;
+        let mut s = [g.usize(0, 6), g.usize(0, 40), g.usize(0, 8)];
+        if g.bool(1, 6) {
             s[g.usize(0, 2)] = 0;
         }
         if g.bool(1, 10) {
@@ -569,8 +569,7 @@ impl Scenario for IoFaults {
     }
     fn shrink(&self, p: &Value) -> Vec<Value> {
         let mut out = vec![];
-        let tensor = ps(p, "fmt").ends_with("tensor");
-        let lo = if tensor { 1 } else { 0 };
+        let lo = 0;
         shrink_int(p, "s0", lo, &mut out);
         shrink_int(p, "s1", lo, &mut out);
         shrink_int(p, "s2", lo, &mut out);
